@@ -46,7 +46,7 @@ def make_copy(mut) -> str:
 def tests_pass(d: str) -> tuple[bool, str]:
     env = dict(os.environ, PYTHONPATH=os.path.join(d, "src"))
     r = subprocess.run(["/venv/bin/python", "-m", "pytest", "-q", "-p", "no:cacheprovider", "--timeout=900",
-                        "--continue-on-collection-errors", "-x", "--deselect", "tests/test_examples.py", "tests"],
+                        "--continue-on-collection-errors", "--ignore=tests/test_examples.py", "tests"],
                        cwd=d, env=env, capture_output=True, text=True)
     tail = r.stdout.strip().splitlines()[-1] if r.stdout.strip() else ""
     # the pinned baseline (32 tests) must pass; newly enabled tests may also be required to pass
